@@ -351,7 +351,9 @@ inline GPoly drawPoly(int res, int maxCells, bool allowHoles, int forceShape = -
         //   1 parallel slanted strips: disjoint holes whose bounding boxes overlap almost completely
         //   2 an L-shaped hole and a small hole in the notch of the L: one bounding box contains the other hole
         //   3 a ring of 4-6 small holes
-        int layout = rin > 0.15 ? rpick({4, 3, 2, 2}) : 0;
+        //   4 one large comb-shaped hole: a rectangle with 1..3 slits cut into it, i.e. tongues of the polygon 0.3..1.5 cells wide that reach
+        //     deep into the hole between the corners of any box around them (concave hole)
+        int layout = rin > 0.15 ? rpick({4, 3, 2, 2, 2}) : 0;
         if (rin > 0.15 && layout == 0) {
             double hd = 0.5 * rin, hrMax = std::min(0.4 * rin, nholes > 1 ? hd * std::sin(gen::PI / nholes) * 0.8 : 0.4 * rin);
             for (int j = 0; j < nholes; j++) {
@@ -403,6 +405,27 @@ inline GPoly drawPoly(int res, int maxCells, bool allowHoles, int forceShape = -
                 }
                 g.holes.push_back(h);
             }
+        } else if (layout == 4) {
+            double al = runit() * 2 * gen::PI, ca = std::cos(al), sa = std::sin(al);
+            auto P = [&](double u, double v) { return mapPt(u * ca - v * sa, u * sa + v * ca); };
+            double hw = 0.6 * rin, hh = 0.35 * rin + 0.2 * rin * runit();
+            int m = ri(1, 3);
+            double Rc = std::max(R / w, 1e-9);
+            std::vector<LatLng> h;
+            h.push_back(P(-hw, -hh));
+            h.push_back(P(hw, -hh));
+            h.push_back(P(hw, hh));
+            for (int j = m - 1; j >= 0; j--) {
+                double x = -hw + 2 * hw * (j + 0.3 + 0.4 * runit()) / m;
+                double sw = std::min(0.8 * hw / m, (0.3 + 1.2 * runit()) / Rc) / 2;
+                double d = 2 * hh * (0.5 + 0.45 * runit());
+                h.push_back(P(x + sw, hh));
+                h.push_back(P(x + sw, hh - d));
+                h.push_back(P(x - sw, hh - d));
+                h.push_back(P(x - sw, hh));
+            }
+            h.push_back(P(-hw, hh));
+            g.holes.push_back(h);
         } else if (layout == 3) {
             int m = ri(4, 6);
             double hd = 0.6 * rin, hr = hd * std::sin(gen::PI / m) * 0.7;
